@@ -158,7 +158,8 @@ Record column := { col_name : string; col_opt : bool; col_cont : string; col_tym
                    col_sql : Z;           (* 0 type inferred, 1 String(255), 2 JSON, 3 String(255) nullable=False *)
                    col_nullable_arg : bool }.
 Record fkcol := { fk_name : string; fk_target : string; fk_opt : bool }.
-Record rel := { rel_name : string; rel_target : string; rel_uselist : bool; rel_fk : string; rel_secondary : string }.
+Record rel := { rel_name : string; rel_target : string; rel_uselist : bool; rel_fk : string; rel_secondary : string;
+                rel_remote : string   (* remote_side: "" or the target's primary key (reference into the own table, 22a99b9) *) }.
 Record table := { t_cls : string; t_module : string; t_name : string; t_base : option string; t_pk : string;
                   t_pk_target : string;
                   t_builtin : list column; t_custom : list column; t_fks : list fkcol; t_rels : list rel;
@@ -201,6 +202,7 @@ Definition field_ok (dao_of pk_of : string -> string) (M : cmodel) (c : cls) (f 
       exists k r, i_fks it = [k] /\ i_rels it = [r] /\ i_builtin it = [] /\ i_custom it = [] /\ i_assoc it = []
         /\ rel_name r = f_name f /\ rel_target r = dao_of t /\ rel_uselist r = false /\ rel_fk r = fk_name k
         /\ rel_secondary r = "" /\ fk_target k = pk_of (dao_of t)
+        /\ (rel_remote r = "" \/ rel_remote r = fk_target k)
   | KColl t =>
       i_err it = false /\
       exists a r, i_assoc it = [a] /\ i_rels it = [r] /\ i_builtin it = [] /\ i_custom it = [] /\ i_fks it = []
